@@ -5,6 +5,7 @@ from ..runner import TestSpec, Outcome
 from ..terms import SchemaT, show
 from .. import model, build, gen as G
 from ..snapshot import exact
+from . import edits
 
 ID = "C06"
 RULE = (
@@ -190,4 +191,5 @@ def body(case):
 
 
 def tests(tier):
-    return [TestSpec("schema-perms", gen_case, body, {"quick": 1500, "thorough": 120000}, tape=2048, fuzz={"thorough": 15000})]
+    return [TestSpec("schema-perms", gen_case, body, {"quick": 1500, "thorough": 120000}, tape=2048, fuzz={"thorough": 15000}),
+            edits.spec("schema", 1000, 80000)]
